@@ -159,6 +159,8 @@ func runC08() {
 			emit(p.Fix())
 		}
 	}
+	// one stack growing past its allocation sizes while the other holds items that are compared afterwards
+	interpgen.DeepStacks(func(p *interpgen.Program) { emit(p) })
 	// P2SH: the saved first stack shares data with the redeem script that is then executed
 	for i := 0; i < 40; i++ {
 		p := interpgen.P2SH(r)
